@@ -273,6 +273,96 @@ fn server_method(e: &EndpointInfo) -> String {
     out.join(";")
 }
 
+/// what a type is once aliases and imported types are looked through (written here independently of the generator
+/// and of the model): optional (and whether of binary), list, set, map, binary or something else
+fn shape_of(t: &Value, ir: &Value, fuel: usize) -> &'static str {
+    if fuel == 0 {
+        return "other";
+    }
+    match t["type"].as_str().unwrap_or("") {
+        "primitive" => if t["primitive"] == "BINARY" { "binary" } else { "other" },
+        "optional" => if shape_of(&t["optional"]["itemType"], ir, fuel - 1) == "binary" { "optional-binary" } else { "optional" },
+        "list" => "list",
+        "set" => "set",
+        "map" => "map",
+        "external" => shape_of(&t["external"]["fallback"], ir, fuel - 1),
+        "reference" => {
+            let (n, p) = (&t["reference"]["name"], &t["reference"]["package"]);
+            match ir["types"].as_array().and_then(|ts| ts.iter().find(|d| d["type"] == "alias" && &d["alias"]["typeName"]["name"] == n && &d["alias"]["typeName"]["package"] == p)) {
+                Some(d) => shape_of(&d["alias"]["alias"], ir, fuel - 1),
+                None => "other",
+            }
+        }
+        _ => "other",
+    }
+}
+
+/// each half against the declared types: an optional argument is sent and decoded as optional, a list or set as a
+/// sequence, a binary body streamed, and the response handled as the return type's shape prescribes
+fn fits_types(client: &str, server: &str, ep: &Value, ir: &Value) -> Option<String> {
+    let c: Vec<Vec<&str>> = client.split(';').map(|t| t.split(':').collect()).collect();
+    let s: Vec<Vec<&str>> = server.split(';').map(|t| t.split(':').collect()).collect();
+    for a in ep["args"].as_array().cloned().unwrap_or_default() {
+        let shape = shape_of(&a["type"], ir, 32);
+        let name = a["argName"].as_str().unwrap_or("");
+        match a["paramType"]["type"].as_str().unwrap_or("") {
+            "body" => {
+                let want = match shape {
+                    "optional" | "optional-binary" => "opt",
+                    "binary" => "bin",
+                    _ => "std",
+                };
+                let got = s.iter().find(|t| t[0] == "body").map(|t| t[1]).unwrap_or("?");
+                if got.trim_end_matches("from") != want {
+                    return Some(format!("the body argument `{}` is {} but the server trait reads it with the `{}` deserializer", name, shape, got));
+                }
+                let req = c.iter().find(|t| t[0] == "req").map(|t| t[1]).unwrap_or("?");
+                if (shape == "binary") != (req == "bin") {
+                    return Some(format!("the body argument `{}` is {} but the client builds a `{}` request", name, shape, req));
+                }
+            }
+            kind @ ("query" | "header") => {
+                let id = a["paramType"][kind]["paramId"].as_str().unwrap_or("");
+                let want = match (kind, shape) {
+                    (_, "optional") | (_, "optional-binary") => "opt",
+                    ("query", "list") | ("query", "set") => "seq",
+                    _ => "one",
+                };
+                let got = s.iter().find(|t| t[0] == kind && unhx(t.get(1).unwrap_or(&"")) == id).map(|t| *t.get(2).unwrap_or(&"?")).unwrap_or("?");
+                if shape != "map" && got.trim_end_matches("from") != want {
+                    return Some(format!("the {} argument `{}` is {} but the server trait decodes it with the `{}` decoder", kind, name, shape, got));
+                }
+                let sent = c.iter().find(|t| matches!(t[0], "q" | "oq" | "lq" | "sq" | "h" | "oh") && unhx(t.get(1).unwrap_or(&"")).eq_ignore_ascii_case(id)).map(|t| t[0]).unwrap_or("?");
+                let want_push = match (kind, shape) {
+                    ("query", "optional") | ("query", "optional-binary") => "oq",
+                    ("query", "list") => "lq",
+                    ("query", "set") => "sq",
+                    ("query", _) => "q",
+                    (_, "optional") | (_, "optional-binary") => "oh",
+                    _ => "h",
+                };
+                if shape != "map" && sent != want_push {
+                    return Some(format!("the {} argument `{}` is {} but the client sends it with `{}`", kind, name, shape, sent));
+                }
+            }
+            _ => {}
+        }
+    }
+    let (want_p, want_d) = match ep.get("returns").filter(|r| !r.is_null()).map(|r| shape_of(r, ir, 32)) {
+        None => ("-", "empty"),
+        Some("optional-binary") => ("optbin", "optbin"),
+        Some("binary") => ("bin", "bin"),
+        Some("optional") | Some("list") | Some("set") | Some("map") => ("collection", "def"),
+        Some(_) => ("std", "ser"),
+    };
+    let produces = s.first().and_then(|t| t.get(4)).copied().unwrap_or("?");
+    let dec = c.iter().find(|t| t[0] == "dec").map(|t| t[1]).unwrap_or("?");
+    if produces != want_p || dec != want_d {
+        return Some(format!("the return type prescribes the `{}` serializer and the `{}` decode function; generated: `{}` and `{}`", want_p, want_d, produces, dec));
+    }
+    None
+}
+
 fn unhx(h: &str) -> String {
     String::from_utf8_lossy(&crate::util::unhex(h).unwrap_or_default()).to_string()
 }
@@ -378,7 +468,7 @@ fn one_doc(cs: &mut Cases, label: &str, ir: &Value, cfg: &GenCfg) {
             } else if s_sync != s_async {
                 cs.fail_last("emit:server-flavours-differ", format!("the blocking and the async trait method of {}.{} carry different attributes: {} vs {}", sname, ename, s_sync, s_async));
             } else if c_sync != "missing" && s_sync != "missing" {
-                if let Some(what) = halves_agree(&c_sync, &s_sync, ep["httpPath"].as_str().unwrap_or("")) {
+                if let Some(what) = halves_agree(&c_sync, &s_sync, ep["httpPath"].as_str().unwrap_or("")).or_else(|| fits_types(&c_sync, &s_sync, &ep, ir)) {
                     cs.fail_last("emit:halves-disagree", format!("generated client and generated server of {}.{} ({} {}) do not fit: {} — IR endpoint {}", sname, ename, ep["httpMethod"].as_str().unwrap_or(""), ep["httpPath"].as_str().unwrap_or(""), what, serde_json::to_string(&ep).unwrap().chars().take(900).collect::<String>()));
                 }
             }
@@ -440,6 +530,9 @@ fn directed() -> Value {
     for (i, (n, t)) in anything.iter().enumerate() {
         eps.push(json!({"endpointName": format!("b{}", n), "httpMethod": "POST", "httpPath": format!("/b/{}", i), "args": [arg("body", t, json!({"type": "body", "body": {}}))], "markers": [], "tags": []}));
         eps.push(json!({"endpointName": format!("r{}", n), "httpMethod": "GET", "httpPath": format!("/r/{}", i), "args": [], "returns": t, "markers": [], "tags": []}));
+    }
+    for (i, (n, t)) in anything.iter().enumerate() {
+        eps.push(json!({"endpointName": format!("limited{}", n), "httpMethod": "PUT", "httpPath": format!("/l/{}", i), "args": [arg("body", t, json!({"type": "body", "body": {}}))], "markers": [], "tags": ["server-limit-request-size: 10kb"]}));
     }
     eps.push(json!({"endpointName": "noSegments", "httpMethod": "GET", "httpPath": "/", "args": [], "markers": [], "tags": []}));
     eps.push(json!({"endpointName": "paramFirst", "httpMethod": "DELETE", "httpPath": "/{a}/{b}/x/y/{c}", "args": [arg("c", &p("STRING"), json!({"type": "path", "path": {}})), arg("a", &p("INTEGER"), json!({"type": "path", "path": {}})), arg("b", &r("Colour"), json!({"type": "path", "path": {}}))], "markers": [], "tags": []}));
